@@ -266,6 +266,7 @@ fn main() {
         "text-replay" => text::cmd_text_replay(&a),
         "text-trace" => text::cmd_text_trace(&a),
         "text-fields" => text::cmd_text_fields(&a),
+        "text-dbcs" => text::cmd_text_dbcs(&a),
         "values-replay" => values::cmd_values_replay(&a),
         "values-trace" => values::cmd_values_trace(&a),
         "values-rerun" => values::cmd_values_rerun(&a),
